@@ -599,6 +599,9 @@ loop:
 			}
 			if time.Since(t0) > liveCap {
 				res.Overloaded = overloaded()
+				if atomic.AddInt32(&hangsSeen, 1) >= 2 {
+					liveCap = 2 * time.Second
+				}
 				s.violation("hang:quiesce", fmt.Sprintf("after replaying %d steps the connection did not become done within %v", res.Executed, liveCap))
 				break loop
 			}
